@@ -542,9 +542,10 @@ def run(ctx):
     from .c02 import r02f
     r02f(ctx)     # the size-derived cap of compound edits is an upper bound only if no node has size 0
     from .c05 import r05c
-    from .c17 import r17b
+    from .c17 import r17b, r17g
     r05c(ctx)     # a candidate / sub-edit taken from a one-shot iterator and then dropped makes the interval unsound
     r17b(ctx)     # the search (a Bounded object) reports no progress only when exhausted
+    r17g(ctx)     # ... and does not mistake a falsy best candidate for none (its interval would never close)
     from .c03 import r03g, r03d
     r03g(ctx)     # size-derived caps of compound edits are sound only if sizes bound the computed leaf costs
     r03d(ctx)     # a list's cost is final only if every accumulated cell was exhausted first
